@@ -24,7 +24,7 @@ int cmd_namematch(int, char**) {
 		if (f.size() == 3 && f[0] == "P" && uv::hexdec(f[1], ds) && uv::hexdec(f[2], n)) {
 			bool i = uscxml::nameMatch(ds, n);
 			bool g = scaffold::nameMatch(ds, n);
-			std::cout << "I=" << (i ? 1 : 0) << " G=" << (g ? 1 : 0) << "\n";
+			{ std::ostringstream _o; _o << "I=" << (i ? 1 : 0) << " G=" << (g ? 1 : 0); uv::putline(_o.str()); }
 		} else if (f.size() == 4 && f[0] == "E" && uv::hexdec(f[1], ds) && uv::hexdec(f[3], n)) {
 			std::vector<std::string> names; std::string cur;
 			for (size_t l = 0; l <= (size_t)atoi(f[2].c_str()); l++) enumNames(n, l, cur, names);
@@ -33,8 +33,8 @@ int cmd_namematch(int, char**) {
 				bi.push_back(uscxml::nameMatch(ds, nm) ? '1' : '0');
 				bg.push_back(scaffold::nameMatch(ds, nm) ? '1' : '0');
 			}
-			std::cout << "I=" << bi << " G=" << bg << "\n";
-		} else std::cout << "bad-op\n";
+			{ std::ostringstream _o; _o << "I=" << bi << " G=" << bg; uv::putline(_o.str()); }
+		} else uv::putline("bad-op");
 	}
 	return 0;
 }
